@@ -480,6 +480,57 @@ func init() {
 			out.Add("lints", Case{Coq: fmt.Sprintf("(%s, %s, %s, (%s, %s, %s))", cqTyped(ipsCoq, "addr"), cqTyped(cnCoq, "addr"), cqTyped(netsCoq, "net"), cqZ(int64(s1)), cqZ(int64(s2)), cqZ(int64(s3))),
 				Tag: fmt.Sprintf("%d%d%d", s1, s2, s3), Desc: map[string]interface{}{"ips": fmt.Sprint(c.IPAddresses), "cn": c.Subject.CommonName, "nets": fmt.Sprint(nets), "statuses": []int{s1, s2, s3}, "der": hexs(der)}})
 		}
+		// "the lints report accordingly" for every certificate the rule covers: BRs 7.1.4.2.1 forbid reserved addresses in
+		// certificates that expire after 2015-11-01, for everything issued under the BRs (from 2012-07-01) - a ladder of
+		// issue and expiry dates around both instants; reserved content must be reported exactly inside that region
+		{
+			brStart, cutoff := time.Date(2012, 7, 1, 0, 0, 0, 0, time.UTC), time.Date(2015, 11, 1, 0, 0, 0, 0, time.UTC)
+			type span struct{ nb, na time.Time }
+			spans := []span{{brStart, cutoff.Add(time.Second)}, {brStart.Add(-time.Second), cutoff.AddDate(1, 0, 0)}, {time.Date(2014, 6, 1, 0, 0, 0, 0, time.UTC), time.Date(2016, 6, 1, 0, 0, 0, 0, time.UTC)},
+				{time.Date(2015, 10, 31, 0, 0, 0, 0, time.UTC), cutoff.Add(time.Second)}, {time.Date(2013, 1, 1, 0, 0, 0, 0, time.UTC), cutoff}, {time.Date(2013, 1, 1, 0, 0, 0, 0, time.UTC), cutoff.Add(-time.Second)},
+				{cutoff, cutoff.AddDate(0, 6, 0)}, {time.Date(2016, 3, 1, 0, 0, 0, 0, time.UTC), time.Date(2017, 3, 1, 0, 0, 0, 0, time.UTC)}, {time.Date(2024, 3, 1, 0, 0, 0, 0, time.UTC), time.Date(2025, 3, 1, 0, 0, 0, 0, time.UTC)}}
+			ladder := 0
+			for _, sp := range spans {
+				want := int(lint.Error)
+				switch {
+				case sp.nb.Before(brStart):
+					want = int(lint.NE)
+				case !sp.na.After(cutoff):
+					want = int(lint.NA)
+				}
+				for _, addr := range []string{"10.1.2.3", "192.168.0.1", "fd00::1"} {
+					t := leafTemplate()
+					t.NotBefore, t.NotAfter = sp.nb, sp.na
+					t.IPAddresses = []net.IP{net.ParseIP(addr)}
+					t.Subject.CommonName = addr
+					der, c, err := issue(t, nil)
+					if err != nil {
+						continue
+					}
+					rs := zlint.LintCertificateEx(c, fr)
+					for _, ln := range []string{"e_ext_san_contains_reserved_ip", "e_subject_contains_reserved_ip"} {
+						ladder++
+						if r := rs.Results[ln]; r != nil && int(r.Status) != want {
+							out.Violate("C19|lint-date-region:"+ln, fmt.Sprintf("%s reports %s for the reserved address %s in a certificate valid %s .. %s; the rule covers certificates issued from 2012-07-01 that expire after 2015-11-01, so %s is expected",
+								ln, r.Status, addr, sp.nb.Format(time.RFC3339), sp.na.Format(time.RFC3339), lint.LintStatus(want)), map[string]interface{}{"der": hexs(der), "address": addr}, lint.LintStatus(want).String(), r.Status.String())
+						}
+					}
+				}
+				ca := leafTemplate()
+				ca.IsCA, ca.BasicConstraintsValid, ca.KeyUsage, ca.PermittedDNSDomainsCritical = true, true, stdx509.KeyUsageCertSign, true
+				ca.NotBefore, ca.NotAfter = sp.nb, sp.na
+				_, n10, _ := net.ParseCIDR("10.0.0.0/8")
+				ca.PermittedIPRanges = []*net.IPNet{n10}
+				if der, c, err := issue(ca, nil); err == nil {
+					ladder++
+					if r := zlint.LintCertificateEx(c, fr).Results["e_ext_nc_intersects_reserved_ip"]; r != nil && int(r.Status) != want {
+						out.Violate("C19|lint-date-region:e_ext_nc_intersects_reserved_ip", fmt.Sprintf("e_ext_nc_intersects_reserved_ip reports %s for the permitted range 10.0.0.0/8 in a CA certificate valid %s .. %s; %s is expected",
+							r.Status, sp.nb.Format(time.RFC3339), sp.na.Format(time.RFC3339), lint.LintStatus(want)), map[string]interface{}{"der": hexs(der)}, lint.LintStatus(want).String(), r.Status.String())
+					}
+				}
+			}
+			out.Stats["lint_date_region_probes"] = ladder
+		}
 		// the two reverse-DNS lints (Kernels/Arpa.v) on directed names of both zones and on the zoo
 		{
 			seenA := map[string]bool{}
